@@ -499,4 +499,43 @@ theorem processPass_len_le (c : H2Conn) (budget : Nat) :
     · simp only
       exact passAux_len_le _ _ _
 
+theorem preSlot_len_le (c : H2Conn) (f : FrameIn) :
+    (preSlot c f).1.streams.length ≤ c.streams.length := by
+  unfold preSlot
+  split
+  · exact processPass_len_le _ _
+  · exact Nat.le_refl _
+
+theorem postStop_len_le (c : H2Conn) :
+    (postStop c).1.streams.length ≤ c.streams.length := by
+  unfold postStop
+  split
+  · exact processPass_len_le _ _
+  · exact Nat.le_refl _
+
+theorem recvBatch_len_le : ∀ (fs : List FrameIn) (c : H2Conn),
+    c.streams.length ≤ Extracted.h2MaxStreams →
+    (recvBatch c fs).1.streams.length ≤ Extracted.h2MaxStreams := by
+  intro fs
+  induction fs with
+  | nil => intro c h; simpa [recvBatch] using h
+  | cons f fs ihf =>
+    intro c h
+    simp only [recvBatch]
+    apply ihf
+    exact Nat.le_trans (postStop_len_le _)
+      (recvFrame_len_le _ f (Nat.le_trans (preSlot_len_le c f) h))
+
+theorem processQuiesce_len_le : ∀ (fuel : Nat) (c : H2Conn),
+    (processQuiesce fuel c).1.streams.length ≤ c.streams.length := by
+  intro fuel
+  induction fuel with
+  | zero => intro c; simp [processQuiesce]
+  | succ n ihn =>
+    intro c
+    simp only [processQuiesce]
+    split
+    · exact processPass_len_le c 262144
+    · exact Nat.le_trans (ihn _) (processPass_len_le c 262144)
+
 end LtVerif
